@@ -11,7 +11,7 @@ Unsupported -> the check exits 2 ("undecided"), never a violation.
 The extractor records for the evidence: rules applied per function, debug assertions turned
 into obligations, and everything that was dropped.
 """
-import re
+import os, re
 
 
 class Unsupported(Exception):
@@ -349,9 +349,67 @@ def x_nested(b, fname, rec):
     return b, hoisted
 
 
+INERT = set()          # functions whose whole body is gated by cfg(feature = "tracing"): calls to them are no-ops in the verified configuration
+
+
+def find_inert(src):
+    """names of functions whose body is empty once `#[cfg(feature = "tracing")]`-gated statements / blocks are removed"""
+    out = set()
+    for m in re.finditer(r'fn (\w+)\s*(?:<[^>]*>)?\(', src):
+        try:
+            _, body, _, _ = find_fn(src[m.start():], m.group(1))
+        except Exception:
+            continue
+        b = body
+        if 'cfg(feature = "tracing")' not in b:
+            continue
+        while True:
+            g = re.search(r'#\[cfg\(feature = "tracing"\)\]\s*', b)
+            if not g:
+                break
+            rest = b[g.end():]
+            if rest.startswith('{'):
+                j = match_close(rest, 0)
+                b = b[:g.start()] + rest[j + 1:]
+            else:
+                # one statement: up to the first `;` at nesting depth 0
+                depth, j = 0, 0
+                while j < len(rest):
+                    c = rest[j]
+                    if c in '([{': depth += 1
+                    elif c in ')]}': depth -= 1
+                    elif c == ';' and depth == 0: break
+                    j += 1
+                b = b[:g.start()] + rest[j + 1:]
+        if not b.strip():
+            out.add(m.group(1))
+    return out
+
+
+def x_inert(b, rec):
+    """X-inert: a call statement to a function that does nothing without the `tracing` feature is dropped (arguments must be string literals)"""
+    for h in sorted(INERT):
+        pat = re.compile(r'\b(?:self|cx)(?:\.metrics)?\.%s\(' % h)
+        while True:
+            m = pat.search(b)
+            if not m:
+                break
+            i = m.end() - 1; j = match_close(b, i, '(', ')')
+            if not re.match(r'^\s*(?:"[^"]*"\s*,?\s*)*$', b[i + 1:j]) or not b[j + 1:].lstrip().startswith(';'):
+                raise Unsupported('call of the tracing-only helper `%s` with arguments other than string literals' % h)
+            k = b.index(';', j)
+            b = b[:m.start()] + b[k + 1:]
+            rec.drop('%s(..) (tracing feature only)' % h)
+    return b
+
+
 def x_guard(b, rec):
-    """X-guard: PhaseGuard -> shim methods on self."""
+    """X-guard: PhaseGuard -> shim methods on self.  The name of the local holding the guard is free (normalised to `cx` first)."""
     n = 0
+    g = re.search(r'let (?:mut )?(\w+) = PhaseGuard::enter\(', b)
+    if g and g.group(1) != 'cx':
+        b = re.sub(r'(?<![\.\w])%s\b' % g.group(1), 'cx', b)
+    b = x_inert(b, rec)
     b, k = re.subn(r'let mut cx = PhaseGuard::enter\(self, None\);\n?', '', b); n += k
     b, k = re.subn(r'let cx = PhaseGuard::enter\(self, Some\((Phase::\w+)\)\);', r'self.enter(\1);', b); n += k
     b, k = re.subn(r'cx\.log_progress\([^)]*\);\n?', '', b)
@@ -610,6 +668,11 @@ def extract_context(path, rec):
     raw = open(path).read()
     src = strip_comments(raw)
     out = {}
+    INERT.clear(); INERT.update(find_inert(src))
+    mp = os.path.join(os.path.dirname(path), 'metrics.rs')
+    if os.path.exists(mp):
+        INERT.update(find_inert(strip_comments(open(mp).read())))
+    INERT.difference_update(CONTEXT_FNS); INERT.difference_update(['drop', 'enter', 'switch'])
     impl = context_impl(src) + guard_helpers(src)
     impl, inlined = inline_helpers(impl, rec)
     for fn in CONTEXT_FNS:
